@@ -70,7 +70,7 @@ ANCHORS = [
     "aiohttp._websocket.reader_py:WebSocketDataQueue.read",
     "aiohttp.compression_utils:ZLibCompressor.compress",
 ]
-SHARD_TIMEOUT = {"quick": 600, "thorough": 3600}
+SHARD_TIMEOUT = {"quick": 900, "thorough": 14400}
 
 DEFAULT_MAX = 4 * 1024 * 1024
 SYNC_THRESHOLD = 16 * 1024  # aiohttp/_websocket/writer.py WEBSOCKET_MAX_SYNC_CHUNK_SIZE (asserted at load)
@@ -182,12 +182,13 @@ def make_body(rng, n: int, kind: str, style: str) -> bytes:
         return (b"\0" if kind != "text" else b"a") * n
     if style == "utf8" or (style == "random" and kind == "text"):
         out = bytearray()
-        while len(out) < n:
+        build = n if n <= 4096 else 4096
+        while len(out) < build:
             c = (rng.choice(UCHARS) if rng.random() < 0.6 else chr(rng.randrange(0x20, 0x7F))).encode()
-            if len(out) + len(c) <= n:
+            if len(out) + len(c) <= build:
                 out += c
             else:
-                out += b"~" * (n - len(out))
+                out += b"~" * (build - len(out))
         if n > 4096:  # big: repeat a 4 KiB cell (still valid UTF-8, exact length)
             cell = bytes(out[:4096])
             while not W.utf8_valid(cell):
@@ -908,16 +909,16 @@ def shards(tier, seed):
         for i in range(2):
             out.append({"kind": "flow", "sub": i, "n": 40})
     else:
-        for i in range(40):
-            out.append({"kind": "seq", "sub": i, "n": 2500})
+        for i in range(32):
+            out.append({"kind": "seq", "sub": i, "n": 600})
         for i in range(2):
-            out.append({"kind": "seq-ov", "sub": i, "n": 1500})
-        for i in range(40):
-            out.append({"kind": "conc", "sub": i, "n": 110})
+            out.append({"kind": "seq-ov", "sub": i, "n": 500})
+        for i in range(24):
+            out.append({"kind": "conc", "sub": i, "n": 90})
         for i in range(2):
-            out.append({"kind": "conc-ov", "sub": i, "n": 40})
-        for i in range(8):
-            out.append({"kind": "flow", "sub": i, "n": 500})
+            out.append({"kind": "conc-ov", "sub": i, "n": 30})
+        for i in range(6):
+            out.append({"kind": "flow", "sub": i, "n": 300})
     return out
 
 
